@@ -758,7 +758,7 @@ static void worker( int fd, int kind, int depth, const std::vector<Item> & front
                 if( ( skipped || !enabled[oi] ) && !first ) continue;
                 PG->op = -1;
                 PG->phase = 1;
-                alarm( 20 );    // a transition takes microseconds: one that does not return is ended by SIGALRM and reported like a crash (a hang)
+                alarm( 6 );    // a transition takes microseconds: one that does not return is ended by SIGALRM and reported like a crash (a hang)
                 World w;
                 std::string why;
                 if( !replay_prefix( w, kind, item.h, depth, why ) ) {
@@ -1174,7 +1174,7 @@ static int do_replay( int kind, const std::vector<int> & ops ) {
         StepInfo si;
         printf( "{\"step\":%d,\"op\":%s,", ( int )i + 1, json_str( d.name ).c_str() );
         fflush( stdout );
-        alarm( 20 );
+        alarm( 6 );
         apply_op( w, d, v, si );
         printf( "\"desc\":%s,", json_str( si.desc ).c_str() );
         fflush( stdout );
